@@ -89,7 +89,7 @@ class C02(WireCheck):
     rule = ("inputs = refdns-encoded messages over every RR type and compression layout (gen), the same with 1-3 structured mutations "
             "(flip, retarget pointer, truncate, splice lengths, section counts: mut), raw bytes, the 74+45 repository corpus files, and buffers padded past 65535; "
             "each input goes through ares_dns_parse (flag set from the input), all twelve legacy reply parsers with a generated capacity, ares_expand_name/"
-            "ares_expand_string at a generated offset, and on success every getter, ares_dns_write and ares_dns_record_duplicate. "
+            "ares_expand_string (also with the documented NULL destination) at a generated offset, and on success every getter, ares_dns_write and ares_dns_record_duplicate. "
             "non-trivial = some parser got past the header to at least one RR or an accepted name used a compression pointer; distinct = distinct case text")
     required_counters = ["c02.parse_accept", "c02.parse_reject", "c02.accepted_with_pointer", "c02.legacy_a_ok", "c02.expand_name_ok"]
     PLAN_QUICK = [("C02-gen", 4, 12000, 100), ("C02-mut", 8, 12000, 100), ("C02-raw", 1, 1500, 100)]
